@@ -69,7 +69,18 @@ func (v *pageVocab) releasesWAL(callee *ssa.Function) bool {
 		return false
 	}
 	r := staticReach(v.p, callee)
-	return r[v.walFree] && r[v.walRelease]
+	if !(r[v.walFree] && r[v.walRelease]) {
+		return false
+	}
+	// ... on every path: a callee that releases only under a condition of its own (e.g. a lookup in some
+	// other table) does not discharge the obligation of its caller
+	calls := func(target *ssa.Function) func(ssa.Instruction) bool {
+		return func(ins ssa.Instruction) bool {
+			c, ok := ins.(ssa.CallInstruction)
+			return ok && c.Common().StaticCallee() == target
+		}
+	}
+	return everyReturnPasses(v.p, callee, calls(v.walFree), 0) && everyReturnPasses(v.p, callee, calls(v.walRelease), 0)
 }
 
 func ruleSHADOW(p *Program, rep *Report) {
